@@ -5,7 +5,7 @@
    len(VGLVLS), SDATE STIME TSTEP).  coherentb = the conjunction of the statement (plus "at least one variable slot",
    without which TFLAG[0,0,:] does not exist, and "TSTEP unlimited", the IOAPI clause of C01).
    iop_region: 0 = proved domain, 1 = reducer along TSTEP over more than one step, 2 = subsetVariables selecting no
-   listed variable, 3 = a standard variable missing from VAR-LIST (never produced by the library's own constructors).
+   listed variable or a zipped two-list selection, 3 = a standard variable missing from VAR-LIST (never produced by the library's own constructors).
    The model describes the code AS REPAIRED by fixes/C10-renameVariable-varlist.patch and fixes/C10-apply-vglvls.patch:
    renameVariable and functions along LAY need no side condition any more. *)
 From PNC Require Import Base.Util Model.FileStruct Model.Ioapi Proofs.IoapiProofs.
@@ -83,6 +83,16 @@ Example C10_slice_first_selected :
   /\ (exists g, istep f0 (ISlice [(DT, false, [2%nat; 1%nat; 0%nat]); (DL, false, [1%nat])]) = Ok g /\ coherentb g = true
                 /\ stime g = 20000 /\ tstep g = -10000 /\ nl g = 1%nat /\ nvgl g = 2%nat).
 Proof. vm_compute. split; eexists; repeat split; reflexivity. Qed.
+
+(* zipped selection sliceDimensions(TSTEP=[0,2], ROW=[0,1]) (region 2: no variable with the standard dimensions is left, NVARS = 0
+   but VAR = 1): the re-created TFLAG keeps the selected times 00:00 and 02:00 (fixes/C10-updatetflag-keeps-times.patch; before it
+   they were regenerated uniformly, 00:00 and 01:00) *)
+Example C10_zip_keeps_times :
+  iop_region f0 (ISlice [(DT, true, [0%nat; 2%nat]); (DR, true, [0%nat; 1%nat])]) = 2%nat
+  /\ exists g, istep f0 (ISlice [(DT, true, [0%nat; 2%nat]); (DR, true, [0%nat; 1%nat])]) = Ok g
+               /\ coherentb g = false /\ nvars g = 0%nat /\ vardim g = 1%nat
+               /\ tflag g = Some (1%nat, [(2000001, 0); (2000001, 20000)]).
+Proof. vm_compute. split; [reflexivity|]. eexists. repeat split; reflexivity. Qed.
 
 (* ---- non-vacuity -------------------------------------------------------------------------------------- *)
 Definition iops_ex : list iop :=
